@@ -5,6 +5,9 @@ mod gen;
 mod interval_ops;
 mod stat_ops;
 mod prop_ops;
+#[cfg(feature = "serde")]
+mod serde_ops;
+mod crit_ops;
 mod rel_ops;
 mod conf_ops;
 mod prog_ops;
@@ -78,6 +81,9 @@ fn gen(prop: &str, tier: &str, seed: u64) -> Vec<String> {
         "C03" => prop_ops::c03(&mut out, &mut rng, tier),
         "C12" => prop_ops::c12(&mut out, &mut rng, tier),
         "C18" => conf_ops::c18(&mut out, &mut rng, tier),
+        #[cfg(feature = "serde")]
+        "C20" => serde_ops::c20(&mut out, &mut rng, tier),
+        "C06" => crit_ops::c06(&mut out, &mut rng, tier),
         "C16" => rel_ops::c16(&mut out, &mut rng, tier),
         "C10" => rel_ops::c10(&mut out, &mut rng, tier),
         "C09" => prog_ops::c09(&mut out, &mut rng, tier),
